@@ -116,7 +116,20 @@ C07Gzip     == << <<"none", "ok">>, <<"multi", "created">>, <<"gzipok", "enc-def
                   <<"gzipok", "enc-identity">>, <<"gzipok", "enc-compress">> >>
 \* --- never sliced: the instance of the route refuses the connection (body-less requests): an error answer of fabio's
 \*     own, and the request goes nowhere else - also when a route without a host matches the path as well
+\* --- never sliced: 8 requests that are in fabio at the same moment through ONE route whose target URL carries a
+\*     query of its own (or none): different short queries (none, one, two parameters), different paths
+C07SimTQs    == << <<"t=1">>, <<"t=1", "u=2">>, <<"x=1", "y=22">>, <<>>, <<"k=v", "long=parameter", "z=3">> >>
+C07SimStrips == << <<>>, <<S, "sim">> >>
+C07SimReqs   == << [host |-> "a", rhost |-> "plain", path |-> <<S, "sim", S, "x">>, query |-> <<"a=1">>],
+                   [host |-> "a", rhost |-> "plain", path |-> <<S, "sim", S, "x">>, query |-> <<"b=2">>],
+                   [host |-> "a", rhost |-> "plain", path |-> <<S, "sim", S, "y">>, query |-> <<"c=3">>],
+                   [host |-> "a", rhost |-> "plain", path |-> <<S, "sim", S, "a", "%2F", "b">>, query |-> <<"q=x">>],
+                   [host |-> "a", rhost |-> "plain", path |-> <<S, "sim", S, "x">>, query |-> <<>>],
+                   [host |-> "a", rhost |-> "plain", path |-> <<S, "sim", S, "y">>, query |-> <<"a=1", "b=2">>],
+                   [host |-> "a", rhost |-> "plain", path |-> <<S, "sim", S, "x">>, query |-> <<"z=%2F">>],
+                   [host |-> "a", rhost |-> "plain", path |-> <<S, "sim", S, "x">>, query |-> <<"d=4">>] >>
 C07Outer == {<<"status", m, p>> : m \in {1, 2}, p \in {3}}
+            \cup {<<"sim", m, p>> : m \in {1, 4}, p \in {1}}
             \cup {<<"bareq", m, p>> : m \in {1, 2}, p \in {3, 4}}
             \cup {<<"gzip", m, p>> : m \in {1, 2}, p \in {3}}
             \cup {<<"dead", m, p>> : m \in {1, 4}, p \in {1}}
@@ -148,6 +161,12 @@ C07Inner(o) ==
                            !.resp = C07Statuses[t[1]], !.accesslog = (t[3] = 2),
                            !.routes = << Ordinary(<<S, "strip">>, <<>>, <<>>, "", <<>>) >>] :
           t \in (DOMAIN C07Statuses) \X {1, 2} \X {1, 2} }
+    ELSE IF o[1] = "sim" THEN
+        { [BaseCase EXCEPT !.sub = "sim", !.method = C07Methods[o[2]], !.tls = (t[3] = 2),
+                           !.hist = C07SimReqs, !.together = TRUE,
+                           !.path = C07SimReqs[8].path, !.query = C07SimReqs[8].query, !.hostlabel = C07SimReqs[8].host,
+                           !.routes = << Ordinary(<<S, "sim">>, C07SimStrips[t[2]], <<>>, "", C07SimTQs[t[1]]) >>] :
+          t \in (DOMAIN C07SimTQs) \X (DOMAIN C07SimStrips) \X {1, 2} }
     ELSE IF o[1] = "bareq" THEN
         { [BaseCase EXCEPT !.sub = "bareq", !.method = C07Methods[o[2]], !.path = C07Paths[o[3]], !.tls = (t[2] = 2),
                            !.query = <<"">>,
@@ -448,5 +467,6 @@ DenyInner(o) == { [BaseCase EXCEPT !.sub = "deny", !.routes = << [Ordinary(<<S>>
 Gen == (pc = "done" /\ (c.flip # <<>> => (env.page = c.flip[1] /\ env.seen = {c.flip[k] : k \in DOMAIN c.flip})))
        => PrintT(ToJson([c |-> c, up |-> up, hits |-> hits, out |-> out,
                          answers |-> IF c.hist = <<>> \/ out.kind # "redirect" THEN <<>> ELSE HistAnswers(route),
-                         conn |-> IF c.hist = <<>> \/ out.kind # "upstream" THEN <<>> ELSE ConnAnswers]))
+                         conn |-> IF c.hist = <<>> \/ out.kind # "upstream" THEN <<>> ELSE ConnAnswers,
+                         each |-> IF c.hist = <<>> \/ ~c.together \/ out.kind # "upstream" THEN <<>> ELSE TogetherUps(route)]))
 =============================================================================
